@@ -39,17 +39,17 @@ func cliEvery(tier string) int {
 var Check = &run.Check{
 	ID:    "C17",
 	Level: "exploration",
-	Rule: "case = directory tree of 2-8 files (nested directories; extensions from {.java,.py,.go,.ts,.js} and 12 others; 1 in 10 files CRLF, 1 in 40 empty, 1 in 12 ending in an unterminated `/*`) " +
+	Rule: "case = directory tree of 2-8 files (nested directories; extensions from {.java,.py,.go,.ts,.js}, 12 unrelated others and 7 look-alikes that end in the letters of a selected one (.mjs .cjs .ipy .mts .cts .cgo .sjava); 1 in 10 files CRLF, 1 in 40 empty, 1 in 64 with a first line of 65536..74536 bytes (minified code / string literal / plain comment) free of marker words, 1 in 12 ending in an unterminated `/*`) " +
 		"whose lines are assembled from code tokens (identifiers incl. TODO/FIXME, numbers, operators incl. / and *), string / char / back-tick literals containing //, /*, */, #, escapes and the word TODO, " +
 		"and line / block / hash comments generated from a grammar: empty, blanks only, one character, plain text, marker later in the text (after a word, glued to 1-2 characters, after punctuation, mid-line of a later block line, directly after a character that opens another kind of comment: `//# FIXME`, `#/ TODO`, `#* TODO`, `#// todo`, `/*# todo */`, `/*/ fixme */`), " +
 		"and marker comments = [blanks] (TODO|FIXME in 10 letter-case variants) followed by nothing | ':' | blank msg | ':' msg | ': ' msg | '(name)' | '(name):' | '(name) ' msg | '(name): ' msg | '(name):' msg, " +
-		"block comments optionally multi-line with or without ' * ' decoration; crash-only marker comments whose text after the marker (and optional colon/blanks) opens a '(' that is never closed in the comment (`// TODO (rework the`, `/* FIXME: (half */`, `# todo(`; entry optional, a panic is a violation); comments alone on a line, after code (glued or not), between tokens, two on one line; " +
+		"block comments optionally multi-line with or without ' * ' decoration, 1 in 4 of the multi-line-capable ones with 1-3 line breaks between `/*` and the marker word (start line = opener's line); crash-only marker comments whose text after the marker (and optional colon/blanks) opens a '(' that is never closed in the comment (`// TODO (rework the`, `/* FIXME: (half */`, `# todo(`; entry optional, a panic is a violation); comments alone on a line, after code (glued or not), between tokens, two on one line; " +
 		"filter = subset number (index mod 32) of the 5-extension list; executed through todo.TodoApp.AnalysisPath(dir, exts) in-process and through `coca todo -p DIR -e exts` (simple-todos.json, count line and table) for every Nth case; " +
 		"oracle: multiset of (file, start line, assignee, message with '*' and blank runs collapsed) == planted marker comments of the selected files; " +
 		"non-trivial = at least 2 planted marker comments in selected files and at least one decoy carrying the marker word (literal, later mention, identifier) in a selected file; " +
 		"distinct = hash of (per file: extension + sequence of element shapes, subset number, boundary)",
 	Assumptions: []string{
-		"the comment marker is exactly `//`, `/*` or `#`; Javadoc `/** TODO`, a marker word at the start of a continuation line, doubled markers of the same kind (`////`, `///`, `##`, `//*`) are not generated (the statement does not settle them); a line comment whose text begins with '#', a hash comment whose text begins with '/' or '*' and a block comment whose text begins with '#' or '/' are plain 'mention later' decoys",
+		"the comment marker is exactly `//`, `/*` or `#`; Javadoc `/** TODO` / ` * TODO`, a marker word at the start of a continuation line after other text (line breaks directly between `/*` and the marker word count as blanks and ARE generated), doubled markers of the same kind (`////`, `///`, `##`, `//*`) are not generated (the statement does not settle them); a line comment whose text begins with '#', a hash comment whose text begins with '/' or '*' and a block comment whose text begins with '#' or '/' are plain 'mention later' decoys",
 		"a marker is followed by end of text, a blank, ':' or '(name)' only: `TODOS`, `TODO-x`, `TODO :`, `TODO (x)`, `TODO()`, `TODO::`, messages starting with '(' or ':' are not generated as asserted entries (a marker followed by an unclosed '(' is generated as a crash-only shape whose entry is free); names are ASCII letters, digits, . _ - @",
 		"char literals are Java-style (one character or one escape); single-quoted strings, unterminated strings, backslashes in back-tick literals and `//` as an operator are not generated",
 		"an unterminated `/* TODO …` at end of file may or may not be reported (only 'no crash' is stated); nothing but plain words follows an unterminated `/*`",
@@ -182,13 +182,31 @@ func runCase(c *run.Ctx, o *run.Outcome) {
 		if !commentgen.Selected(f, exts) {
 			truth.Unselected[f.Rel] = true
 			o.Count("files_with_other_extension", 1)
+			if f.Lookalike {
+				// .mjs/.cjs/.ipy/.mts/.cts/.cgo/.sjava: counted only when the look-alike's base extension IS in the filter
+				for _, e := range exts {
+					if strings.HasSuffix(f.Ext, e[1:]) {
+						o.Count("lookalike_files_next_to_their_selected_extension", 1)
+						o.Count("marker_comments_in_lookalike_files", len(f.Planted))
+						o.Seen("lookalike_extensions", f.Ext+"~"+e)
+						break
+					}
+				}
+			}
 			o.Count("marker_comments_in_unselected_files", len(f.Planted))
 			continue
 		}
 		truth.Selected[f.Rel] = true
 		o.Count("files_selected", 1)
+		if f.LongLine > 0 {
+			o.Count("selected_files_with_first_line_over_64KiB", 1)
+			o.Count("marker_comments_below_a_64KiB_line", len(f.Planted))
+			if f.LongLine == 65536 || f.LongLine == 65537 {
+				o.Count("long_lines_at_the_64KiB_boundary", 1)
+			}
+		}
 		for _, p := range f.Planted {
-			truth.Expect = append(truth.Expect, oracle.TodoExpect{File: f.Rel, Line: p.Line, Kind: p.Kind, Form: p.Form, Tight: p.Tight, Multi: p.Multi,
+			truth.Expect = append(truth.Expect, oracle.TodoExpect{File: f.Rel, Line: p.Line, Kind: p.Kind, Form: p.Form, Tight: p.Tight, Multi: p.Multi, MarkerLineOffset: p.MarkerLineOffset,
 				Optional: p.Optional, Assignee: p.Assignee, Message: p.Message, Src: p.Src})
 			if p.Optional {
 				if p.Form == "unclosed-paren" {
@@ -203,6 +221,9 @@ func runCase(c *run.Ctx, o *run.Outcome) {
 			o.Count("planted/"+p.Kind, 1)
 			if p.Multi {
 				o.Count("planted_multi_line_block", 1)
+			}
+			if p.MarkerLineOffset > 0 {
+				o.Count("planted_block_opener_alone(marker_on_later_line)", 1)
 			}
 			if p.Assignee != "" {
 				o.Count("planted_with_assignee", 1)
